@@ -227,7 +227,8 @@ Where(u) ==
   ELSE IF p < D0(u) + Dn(u) + u.L.macr THEN [seg |-> "macr", i |-> p - D0(u) - Dn(u)]
   ELSE [seg |-> "rsrc", i |-> p - D0(u) - Dn(u) - u.L.macr]
 
-(* Request (203 without transfer options): refused with an error reply when the final name exists. *)
+(* Request (203 without transfer options): refused with an error reply when the final name exists.
+   s.size (the optional transfer-size field 108: "present" | "absent") has no influence, here and in Resume. *)
 Request(s) ==
   /\ up.ph \in {"idle", "dead", "done"}
   /\ IF up.final.on
